@@ -508,10 +508,27 @@ pub fn shrink_candidates(s: &Scn) -> Vec<Scn> {
                 }
             }
             for (pi, part) in m.parts.iter().enumerate() {
-                for ki in 0..part.kfs.len() {
-                    let mut c = s.clone();
-                    c.spec.states[st].as_mut().unwrap().parts[pi].kfs.remove(ki);
-                    out.push(c);
+                let n_k = part.kfs.len();
+                if n_k > 48 {
+                    // very many keyframes: drop chunks (halves ... 1/16), never one candidate per
+                    // keyframe (that would be quadratic in memory)
+                    let mut len = n_k / 2;
+                    while len >= (n_k / 16).max(1) {
+                        let mut start = 0;
+                        while start + len <= n_k {
+                            let mut c = s.clone();
+                            c.spec.states[st].as_mut().unwrap().parts[pi].kfs.drain(start..start + len);
+                            out.push(c);
+                            start += len;
+                        }
+                        len /= 2;
+                    }
+                } else {
+                    for ki in 0..n_k {
+                        let mut c = s.clone();
+                        c.spec.states[st].as_mut().unwrap().parts[pi].kfs.remove(ki);
+                        out.push(c);
+                    }
                 }
             }
         }
@@ -561,7 +578,7 @@ pub fn shrink_candidates(s: &Scn) -> Vec<Scn> {
             push(&|t| t.reverse = false);
             push(&|t| t.duration = 1.0);
             push(&|t| t.kfs.sort_by(|a, b| a.pos.total_cmp(&b.pos)));
-            for ki in 0..part.kfs.len() {
+            for ki in 0..part.kfs.len().min(12) {
                 push(&|t| t.kfs[ki].easing = None);
                 push(&|t| t.kfs[ki].via_from = false);
                 push(&|t| {
